@@ -82,6 +82,17 @@ CLAIMED["C06"] = dict(
     technique="Lean 4 agreement theorem + outright-rejection theorems + reductions to named hash/cipher events; scripted-handshake differential harness",
     note="Hash preimage/collision resistance is outside any model of this repository: stated as reductions.")
 
+CLAIMED["C17"] = dict(
+    text="Theorems (Lean 4): for EVERY device id < 2^48, port, 32-byte ASCII serial, name net_<hh>_<suffix> with any appliance type byte in either hex case, any reported IP, arbitrary other header bytes and trailing bytes, and both reply versions, the model of _get_device_info applied to the reply built by the independent Spec.Discover returns exactly the id, port, serial, name, type and version encoded (V3 = V2 with the wrapper stripped); every type byte in either case parses back to itself (kernel-exhaustive); the discovery probe regenerated from const.py is a well-formed correctly signed V2 packet under the strict independent decoder (AES-128/MD5 evaluated in the kernel). Tie: real Discover.discover()/discover_single() on the simulated network (fake datagram endpoint, virtual time) with replies built by the Lean Spec: every type byte, boundary ids/ports, reported IP equal to / different from the source; oracle on the returned Device objects (identity, source address, AC vs generic class) and on the datagrams sent (probe bytes, ports 6445 and 20086).",
+    design="DESIGN.md §6 C17",
+    technique="Lean 4 parse-of-spec-reply theorem + kernel evaluation of the probe; differential run of the real discovery on a simulated network",
+    note="UTF-8 decoding is modelled for ASCII only; whether a datagram parses as XML is an input bit decided by the real xml.etree.")
+CLAIMED["C18"] = dict(
+    text="Theorems (Lean 4, unbounded): for ANY finite sequence of datagrams (any multiset, arrival order, source ports, duplicates) the handler creates at most one task per source address and discovery reports at most one device per address; a device is reported for a host exactly when that host's FIRST datagram is a well-formed V2/V3 reply, and it is the parse of that datagram; hence two arrival sequences with the same first datagram per host report the same set of devices (interleaving, duplicates and whatever a bad host sends are irrelevant) and a bad host contributes nothing and changes nothing else; the run is total. Tie: real Discover.discover() on the simulated network vs the model for all interleavings of small cases, every bad-reply class (random bytes, valid envelope with short / non-text body, missing separators, non-hex type, XML without attributes, missing name) from every subset of hosts, and random larger cases; oracle independent of the model (exactly the hosts whose first reply was good). One genuine defect found and repaired (fix: f6d4c4f).",
+    design="DESIGN.md §6 C18",
+    technique="Lean 4 characterisation theorem of the de-duplication/gather logic by induction over the datagram list; differential run on a simulated network",
+    note="asyncio task scheduling and gather are trusted; the V1 TCP info query is modelled only as 'contributes no device'.")
+
 NOT_YET = {
 }
 
